@@ -292,6 +292,9 @@ func c03Configs() []CfgLit {
 		{Origins: append(append([]string{}, richOrigins...), "https://a.b"), Credentialed: true, Methods: richMethods, RequestHeaders: richReqHdrs, ResponseHeaders: richResHdrs, MaxAge: 600, Status: 201, TolInsecure: true, TolPSL: true},
 		{Origins: c03SpliceHosts("https://"), Credentialed: true, ResponseHeaders: []string{"X-R"}, Methods: []string{"PUT"}, RequestHeaders: []string{"X-A"}},
 		{Origins: disc, Credentialed: true, PNANoCORS: true, ResponseHeaders: []string{"X-R"}, MaxAge: 30, Methods: []string{"*"}, RequestHeaders: []string{"*"}, TolInsecure: true, TolPSL: true, Status: 200},
+		// a pattern with a port wildcard listed first; one and the same name, in the same spelling, among the allowed
+		// request headers, the exposed response headers and the methods
+		{Origins: []string{"https://b.a:*", "http://[::1]:*", "https://*.a.b", "https://a.b"}, Credentialed: true, ResponseHeaders: []string{"X-Same", "X-R"}, MaxAge: 30, Methods: []string{"X-Same", "PUT"}, RequestHeaders: []string{"X-Same", "X-A"}, TolInsecure: true, TolPSL: true},
 	}
 }
 
@@ -420,6 +423,15 @@ func checkC03(c *vlib.Ctx) (string, string) {
 		"https://" + strings.Repeat("a", 1<<20), strings.Repeat("https://a.b,", 1<<16), "https://a.b, https://a.b", "https://a.b,https://x.a.b", "*", "", "https://xn--a.b", "https://x_y.a.b", "https://b.a:8080", "https://b.a",
 		// what the Config value of construction route 12 held before it was edited in place and resubmitted
 		"https://placeholder0.example", "https://placeholder1.example", "https://placeholder2.example", "https://placeholder3.example"}
+	// the text of every configured pattern, presented as an Origin value (a pattern is not an origin unless it is free
+	// of wildcards)
+	for _, l := range cfgs {
+		for _, p := range l.Origins {
+			if len(p) < 400 && !slices.Contains(structured, p) {
+				structured = append(structured, p)
+			}
+		}
+	}
 	recS := vlib.NewRec()
 	for _, v := range structured {
 		for _, r := range shapes(v) {
